@@ -178,11 +178,10 @@ pub fn check(sc: &Scenario, env: &mut Env) -> Result<Outcome, HarnessError> {
             out.probe("depth:bounded");
         }
         if let Source::Glob { expr, rooted: false } = &w.source {
-            if expr.starts_with("../") || expr == ".." {
-                out.probe("glob:dotdot-prefix");
-            }
-            if expr.starts_with("./") || expr == "." {
-                out.probe("glob:dot-prefix");
+            match dot_kind(expr.split('/').next().unwrap_or("")) {
+                Some("..") => out.probe("glob:dotdot-prefix"),
+                Some(_) => out.probe("glob:dot-prefix"),
+                None => {},
             }
         }
     }
